@@ -99,6 +99,24 @@ func legVM(c *Ctx) {
 			ast *Ast
 		}{p, Opts{}, nil})
 	}
+	// the same for right-to-left code (opcodes carrying the Rtl bit count towards TrackCount like their left-to-right
+	// forms): chains of character loops under RightToLeft and inside lookbehinds
+	rtlStress := []string{`a*b*a*b*a*`, `[ab]+-[ab]+-[ab]+-[ab]+`, `a*b*a*b*a*b*a*b*a*b*a*b*z?`, `(?:ab?)*c`, `(a|b)*z`, `(?:a?b?)*z`}
+	for _, p := range rtlStress {
+		pats = append(pats, struct {
+			pat string
+			o   Opts
+			ast *Ast
+		}{p, Opts{RTL: true}, nil})
+	}
+	for _, p := range []string{`(?<=a*b*a*b*a*b*a*b*a*b*a*)z`, `(?<=[ab]+-[ab]+-[ab]+)z`, `(?<!a*b*a*b*a*b*c)z`} {
+		pats = append(pats, struct {
+			pat string
+			o   Opts
+			ast *Ast
+		}{p, Opts{}, nil})
+	}
+	nStress := len(stressPatterns()) + len(rtlStress) + 3
 	for i := 0; i < nPat; i++ {
 		o := randOpts(c.Rng, c.Rng.Chance(20))
 		o.RE2 = false
@@ -114,7 +132,7 @@ func legVM(c *Ctx) {
 	}
 	for pi, pp := range pats {
 		nl := 3
-		if pi < len(stressPatterns()) {
+		if pi < nStress {
 			nl = len(vmLimits)
 		}
 		for li := 0; li < nl; li++ {
@@ -144,7 +162,7 @@ func legVM(c *Ctx) {
 						inputs = append(inputs, x)
 					}
 				})
-				inputs = append(inputs, []rune("ab=a"), []rune("aab=a"), []rune("abab=a"), []rune("aabab=a"))
+				inputs = append(inputs, []rune("ab=a"), []rune("aab=a"), []rune("abab=a"), []rune("aabab=a"), []rune("ab-ba-ab-ba"), []rune("aabbaabbaabbz"), []rune("ab-ab-abz"), []rune("z"))
 				for _, n := range []int{0, 1, 3, 8, 12, 13, 16, 31, 40} {
 					inputs = append(inputs, []rune(strings.Repeat("ab", n)+"z"), []rune(strings.Repeat("abcdefghijk", n)+"z"), []rune(strings.Repeat("ab", n)+"c"), []rune(strings.Repeat("abc", n)+"d"))
 				}
